@@ -160,6 +160,21 @@ Theorem C18_nested_content_resolved : forall taken heap ctr pats users,
 Proof. exact nested_guarded. Qed.
 Print Assumptions C18_nested_content_resolved.
 
+(* --- the box of a group ------------------------------------------------------------------- *)
+(* Group::calculate_object_bbox: every child that is not an empty group, zero-width / zero-height ones included
+   (a nested group around a horizontal line), lies inside the box the group's clip / mask / filter is resolved with *)
+Theorem C18_object_bbox_contains : forall cs B, object_bbox cs = Some B ->
+  forall c, In c cs -> gc_empty_group c = false -> rect_inside (gc_box c) B.
+Proof. exact object_bbox_contains. Qed.
+Print Assumptions C18_object_bbox_contains.
+
+Example C18_nv_object_bbox :
+  object_bbox [ {| gc_box := {| rx := 10; ry := 10; rw := 40; rh := 20 |}; gc_empty_group := false |};
+                {| gc_box := {| rx := 4; ry := 38; rw := 58; rh := 0 |}; gc_empty_group := false |};
+                {| gc_box := {| rx := 0; ry := 0; rw := 0; rh := 0 |}; gc_empty_group := true |} ]
+  = Some {| rx := 4; ry := 10; rw := 62 - 4; rh := 38 - 10 |}.
+Proof. vm_compute. reflexivity. Qed.
+
 (* --- non-vacuity -------------------------------------------------------------------------- *)
 Definition nv_d0 : gdef := {| g_id := 5; g_units := ObjectBoundingBox; g_ts := from_row 1 0 0 1 0 0 |}.
 Definition nv_users : list user :=
